@@ -41,6 +41,9 @@ type Gen struct {
 	// rapid's small-value bias favours the alphabetically first kinds).
 	UniformKinds bool
 	kindDraws    uint64
+	// OwnerChangeFocus: half of the generated proposal trackings change the proposal owner (so that one proposal
+	// changes hands several times within a history)
+	OwnerChangeFocus bool
 	// StaffEveryElection: work towards enough voted CR candidates in every
 	// voting period (default: the first one only).
 	StaffEveryElection bool
